@@ -50,7 +50,7 @@ def find_replay(mod, obligation):
             import importlib
             src = importlib.import_module("props." + obligation[:3])
             for pref, script, mode, params in getattr(src, "REPLAY", []):
-                if obligation.startswith(pref) and pref.startswith(obligation[:3]) and (best is None or len(pref) > len(best[0])):
+                if obligation.startswith(pref) and pref.startswith(obligation[:3]) and (best is None or len(pref) >= len(best[0])):
                     best = (pref, script, mode, params)
         except Exception:
             pass
